@@ -21,6 +21,40 @@ def archetype_methods(prog):
     return [f for f in prog.fns.values() if f.path.startswith('archetype::Archetype::<R>::') and f.kind == 'AssocFn']
 
 
+def batch_len_term_ok(prog, f, t):
+    """Is term t (inside row operation f) the number of rows of the batch being stored? Either `len()` /
+    `component_len()` of the entities, or a usize parameter for which every caller of f passes `len()` /
+    `component_len()` of the entities value it passes in the same call."""
+    S = pathsem.strip_refs
+    t = S(t)
+    if isinstance(t, tuple) and t[0] == 'call' and t[1].rsplit('::', 1)[-1] in ('component_len', 'len'):
+        return True
+    if not (isinstance(t, tuple) and t[0] == 'p' and isinstance(t[1], int)):
+        return False
+    pos = t[1] - 1
+    callers = [g for g in prog.fns.values() if g.kind != 'Closure' and any(True for g2 in [g] + g.closures() for _ in g2.body.calls(lambda c: (c.get('res') or c).get('dp') == f.dp or c.get('dp') == f.dp))]
+    if not callers:
+        return False
+    for g in callers:
+        Eg = pathsem.analyse(prog, g, max_paths=20000)
+        if Eg.truncated:
+            return False
+        for p in Eg.paths:
+            for e in p.calls(lambda e: e['path'] == f.path):
+                if pos >= len(e['vals']):
+                    return False
+                a = S(e['vals'][pos])
+                if not (isinstance(a, tuple) and a[0] == 'call' and a[1].rsplit('::', 1)[-1] in ('component_len', 'len') and a[2]):
+                    return False
+                src = pathsem.canon(S(a[2][0]))
+                while isinstance(src, tuple) and src[0] == 'd':
+                    src = S(src[1])
+                # the same batch/entities value is what the other arguments are made of
+                if not any(j != pos and pathsem.mentions(pathsem.canon(v), lambda u: u == src) for j, v in enumerate(e['vals'])):
+                    return False
+    return True
+
+
 @rule('P4', props=['C01', 'C02', 'C13', 'C05', 'C03', 'C06', 'C04'], floor=2)
 def p4_swap_remove_fixup(prog):
     """Wherever the archetype's identifier column is swap_removed at `index`, the entity that the swap moves into
@@ -299,8 +333,7 @@ def p9_length_bookkeeping(prog):
                 if kind == 'delta':
                     ok = d.is_const() and d.const == val
                 else:
-                    ok = d.const == 0 and len(d.terms) == 1 and list(d.terms.values()) == [1] and \
-                        all(isinstance(t, tuple) and t[0] == 'call' and t[1].rsplit('::', 1)[-1] in ('component_len', 'len') for t in d.terms)
+                    ok = d.const == 0 and len(d.terms) == 1 and list(d.terms.values()) == [1] and all(batch_len_term_ok(prog, f, t) for t in d.terms)
             if not ok:
                 once('wrong-delta', st['ln'], 'write to self.length (%s) is not the expected %s %s' % (pathsem.tstr(st['value']), kind, val))
             if any(w['i'] > s2['i'] for w in wcalls for s2 in stores):
@@ -449,6 +482,7 @@ def p10_row_identifier_correspondence(prog):
 
     def is_idcol(t, me):
         return pathsem.mentions(t, lambda u: pathsem.is_field_of(u, 'archetype::Archetype', ei) and pathsem.mentions(u, lambda w: w == me))
+    direct_batch = []
     # ---- push
     f = meth('push')
     if f is None:
@@ -514,24 +548,29 @@ def p10_row_identifier_correspondence(prog):
         for p in rets:
             ab_ = p.calls(lambda e: e['name'] == 'allocate_batch')
             ln_ = p.calls(lambda e: e['name'] == 'new' and 'Locations' in e['path'])
-            if len(ab_) != 1 or len(ln_) != 1:
+            direct = len(ab_) == 1 and not ln_ and len(ab_[0]['vals']) >= 3 and isinstance(S(ab_[0]['vals'][1]), tuple) and S(ab_[0]['vals'][1])[0] == 'agg' and S(ab_[0]['vals'][1])[1] == 'core::ops::Range'
+            if len(ab_) != 1 or (len(ln_) != 1 and not direct):
                 once('extend/shape', None, 'extend must build one Locations range and allocate one batch of identifiers')
                 continue
-            bt, lt = ab_[0], ln_[0]
+            bt = ab_[0]
+            # the row range and this archetype's identifier reach allocate_batch as a Locations value or as they are
+            lt = ln_[0] if not direct else {'vals': (bt['vals'][1], bt['vals'][2]), 'ret': None, 'ln': bt['ln']}
             rng = S(lt['vals'][0])
             if isinstance(rng, tuple) and rng[0] == 'agg' and rng[1] == 'core::ops::Range' and len(rng[4]) == 2:
                 lo = pathsem.lin(rng[4][0]) - pathsem.lin(oldlen)
                 hi = pathsem.lin(rng[4][1]) - pathsem.lin(oldlen)
                 hit = list(hi.terms.items())
-                ok_hi = hi.const == 0 and len(hit) == 1 and hit[0][1] == 1 and isinstance(hit[0][0], tuple) and hit[0][0][0] == 'call' and hit[0][0][1].rsplit('::', 1)[-1] in ('component_len', 'len')
+                ok_hi = hi.const == 0 and len(hit) == 1 and hit[0][1] == 1 and batch_len_term_ok(prog, f, hit[0][0])
                 if not (lo.is_const() and lo.const == 0) or not ok_hi:
                     once('extend/location-range', lt['ln'], 'new rows are given locations %s..%s, expected old_length..old_length + batch length' % (pathsem.tstr(rng[4][0]), pathsem.tstr(rng[4][1])))
             else:
                 once('extend/location-range-shape', lt['ln'], 'cannot see the range of row indices handed to Locations::new')
             if not names_this_archetype(lt['vals'][1], me):
                 once('extend/location-identifier', lt['ln'], 'new rows\' locations do not name this archetype')
-            if S(bt['vals'][1]) != lt['ret']:
+            if not direct and S(bt['vals'][1]) != lt['ret']:
                 once('extend/locations-not-used', bt['ln'], 'allocate_batch is not given the locations built for the new rows')
+            if direct:
+                direct_batch.append(bt)
             exts = [e for e in p.calls(lambda e: e['name'] in ('extend', 'extend_from_slice', 'append')) if is_idcol(e['args'][0], me)]
             src_ok = False
             for e in exts:
@@ -551,6 +590,14 @@ def p10_row_identifier_correspondence(prog):
         r.inst('Allocator::allocate_batch')
         E0 = pathsem.analyse(prog, f)
         bad = None
+        if direct_batch:
+            # the batch arrives as (row range, identifier): allocate_batch itself pairs them up, from exactly those
+            for p in E0.paths:
+                if p.ended != 'return':
+                    continue
+                mk = p.calls(lambda e: e['name'] == 'new' and 'Locations' in e['path'])
+                if len(mk) != 1 or S(mk[0]['vals'][0]) != ('p', 2, f.body.local_name(2) or '') or S(mk[0]['vals'][1]) != ('p', 3, f.body.local_name(3) or ''):
+                    bad = 'allocate_batch does not build its Locations from the row range and identifier it was given'
         for p in E0.paths:
             if p.ended not in ('return', 'cutoff'):
                 continue
